@@ -1100,7 +1100,7 @@ class Slices(Stream):
         rng.shuffle(cases)      # so that a time-limited prefix is a fair sample of the whole plan
         always = single_defect_cases()      # never sampled, never cut by the budget
         self.precompute(self.corpus() + always, None)
-        budget = float(os.environ.get('VERIF_C10_BUDGET', '') or (80 if tier == 'quick' else 540))
+        budget = float(os.environ.get('VERIF_C10_BUDGET', '') or (55 if tier == 'quick' else 540))
         done = self.precompute(cases, budget, minimum=300)
         if done < len(cases):
             log('C10: observation budget of %.0f s reached after %d of %d planned cases' % (budget, done, len(cases)))
